@@ -68,8 +68,20 @@ def _all_cases(C, tier, seed):
 
 SPEC = {
     'id': 'C10',
-    'lean_modules': ['AITB.Props.C10'],
-    'theorems': ['AITB.Cursor.matchLoop_total', 'AITB.Cursor.match_no_oob', 'AITB.Cursor.matchOrig_oob_witness', 'AITB.Cursor.uses_subset_provides'],
+    # C10(b): besides its own cursor model (match) C10 re-audits the in-bounds / totality theorems that the other properties
+    # proved about the manual index and iterator cores named in C10's anchors (they live with the property that models the core)
+    'lean_modules': ['AITB.Props.C10', 'AITB.Props.C20', 'AITB.Props.C11Traces', 'AITB.Props.C12Interp', 'AITB.Props.C12InterpValue', 'AITB.Props.C12Prune', 'AITB.Props.C12PruneStrong', 'AITB.Props.C08Dense',
+                     'AITB.Props.C08', 'AITB.Props.C08Vose', 'AITB.Props.C18', 'AITB.Props.C14', 'AITB.Props.C14c', 'AITB.Props.C19', 'AITB.Props.C17'],
+    'theorems': ['AITB.Cursor.matchLoop_total', 'AITB.Cursor.match_no_oob', 'AITB.Cursor.matchOrig_oob_witness', 'AITB.Cursor.uses_subset_provides',
+                 'AITB.Trie.trie_cursor_refines_spec', 'AITB.Trie.applyCursor_eq',                      # Trie::applyFilters k-way cursor loop, getAllIds/size/erase
+                 'AITB.Learn.updateTraces_spec', 'AITB.Learn.updateTraces_nodup',                        # swap-and-pop trace loops (OffPolicyBase, SARSAL)
+                 'AITB.Interp.sawtooth_repaired_total', 'AITB.Interp.sawtooth_defined_of_nonempty',      # sawtoothInterpolation never reads out of range / uninitialised
+                 'AITB.Prune.extractDominated_perm', 'AITB.Prune.incremental_ranges',                    # extractDominated(+Incremental): a permutation, ranges partition
+                 'AITB.Sampling.dense_in_range', 'AITB.Sampling.denseA_in_range', 'AITB.Sampling.sparseFixed_in_support',
+                 'AITB.Sampling.alias_in_range', 'AITB.Sampling.vose_fixed_alias_in_range',              # samplers return an index inside the support
+                 'AITB.Cassandra.parser_total', 'AITB.Cassandra.parse_writes_in_bounds', 'AITB.Cassandra.writes_offset_lt_allocated',
+                 'AITB.Factored.pie_yields_exactly', 'AITB.Factored.toIndex_lt',
+                 'AITB.Tree.returned_action_valid', 'AITB.Codec.fromTriplets_valid'],
     'harness': 'harness/c10.cpp',
     'extra_cases': _all_cases,
     'level': 'exploration',
